@@ -226,7 +226,10 @@ impl Engine for C14 {
             }
             5 => {
                 // valid body in a non-canonical encoding (wide heads, indefinite lengths)
-                let it = gen_item(&mut rng, ty, &cfg);
+                let mut it = gen_item(&mut rng, ty, &cfg);
+                if rng.chance(1, 3) {
+                    refcbor::bignumify(&mut rng, &mut it, 0);
+                }
                 let mut out = Vec::new();
                 let widen = rng.range(0, 6) as u32;
                 let indef = rng.range(1, 8) as u32;
